@@ -138,3 +138,9 @@ CHECKS.update({
     "C33": ("6/C33", "Every subset of 3 valid deployment names x per deployment {secret absent, empty map, 27 YAML-tricky keys/values} x generation {absent, 0, 7} x password {none, ascii, unicode, single space, (200 chars, newline)}: create_backup_archive -> read_backup_archive with the same password compared field by field (names, CR dict, secret map, generation, manifest); every encrypted archive is also read with 4 different passwords incl. none, which must fail.",
             "Runs in a worker under /root/miniconda/bin/python (cryptography is absent from /venv) with /venv's pure-python yaml; PBKDF2 iterations lowered to 1000 for breadth, 2 cases at the real 600000. If that interpreter is missing the check exits 2 (not runnable).", ENUM_TECH),
 })
+
+CRASH_TECH = "exhaustive crash-point enumeration on the real implementation: for every explored schedule the process is stopped after every persisted tick (no further callback runs), a fresh runtime stack is started on the surviving store, and the recovered run is compared with the uninterrupted reference"
+CHECKS.update({
+    "C13": ("6/C13", "6 deterministic workflows (3-step chain, fan-out/fan-in with collect_events, zero-delay retries, catch_error recovery, waiter + external response without / with requirements) on the real server stack (ServerRuntimeDecorator(IdleReleaseDecorator(PersistenceDecorator(BasicRuntime))) + _WorkflowService) over MemoryWorkflowStore (instance survives) and SqliteWorkflowStore (file survives); the process is stopped right after the k-th persisted tick for every k up to the length of the log, a fresh stack resumes through PersistenceDecorator.launch(), and all schedules of both phases within the deviation bound are explored; the resumed handler must end completed with the uninterrupted result and a log that already contains the terminal tick must be finalized without running a step.",
+            "Four genuine root causes are recorded as known findings with root-cause witnesses (step output not yet queued, sent event not yet persisted, spuriously idle-flagged handler skipped at startup, non-matching response replayed against a requirement-less waiter); fixes 31a2af2 and bcfdba2 repaired two further defects this check found. Any violation outside those contexts alarms.", CRASH_TECH),
+})
